@@ -15,6 +15,9 @@ type iterator struct {
 	keys   []string
 	values [][]byte
 	closed bool
+	// positioned is set by First and Seek. Like the Pebble wrappers, Next and Prev on an
+	// iterator that was never positioned behave as First.
+	positioned bool
 }
 
 func (i *iterator) Valid() bool {
@@ -30,6 +33,7 @@ func (i *iterator) First() bool {
 		panic(errIteratorClosed)
 	}
 
+	i.positioned = true
 	i.curInd = 0
 	return i.Valid()
 }
@@ -39,15 +43,15 @@ func (i *iterator) Prev() bool {
 		panic(errIteratorClosed)
 	}
 
-	if i.curInd == 0 {
-		// consistent with pebble's behaviour when Prev() is called on the first key:
-		// iterator becomes invalid
-		i.curInd = -1
-		return false
+	if !i.positioned {
+		return i.First()
 	}
 
-	if i.curInd == -1 {
-		return i.First()
+	if i.curInd <= 0 {
+		// consistent with pebble's behaviour when Prev() is called on the first key (or before it):
+		// iterator becomes (stays) invalid, positioned before the first key
+		i.curInd = -1
+		return false
 	}
 
 	i.curInd--
@@ -59,7 +63,15 @@ func (i *iterator) Next() bool {
 		panic(errIteratorClosed)
 	}
 
-	i.curInd++
+	if !i.positioned {
+		return i.First()
+	}
+
+	// consistent with pebble: once past the last key the position stays one past the end,
+	// so that Prev() lands on the last key again
+	if i.curInd < len(i.keys) {
+		i.curInd++
+	}
 	return i.Valid()
 }
 
@@ -106,6 +118,7 @@ func (i *iterator) Seek(key []byte) bool {
 		panic(errIteratorClosed)
 	}
 
+	i.positioned = true
 	for j := range i.keys {
 		if bytes.Compare(key, []byte(i.keys[j])) <= 0 {
 			i.curInd = j
